@@ -180,6 +180,33 @@ pub fn judge(case: &Case, acc: &mut Acc) {
                     }
                     Err(e) => viol!(acc, P, "built-header-rejected", case, "a built empty message does not parse", "Ok", format!("{e:?}")),
                 }
+                // the convenience predicates and response builders go through the same fields
+                if let Ok(msg) = Message::from_bytes(&b) {
+                    let mut ok = msg.has_method(m) && msg.is_response() == (c >= 2) && msg.has_class(real::class_of(c));
+                    for other in 0..4u8 {
+                        if other != c && msg.has_class(real::class_of(other)) {
+                            ok = false;
+                        }
+                    }
+                    if m != 0 && msg.has_method(m ^ 1) {
+                        ok = false;
+                    }
+                    let bld = real::builder(c, m, 7);
+                    if !bld.has_class(real::class_of(c)) {
+                        ok = false;
+                    }
+                    if !ok {
+                        viol!(acc, P, "message-predicates", case, "has_class / has_method / is_response of a message (or builder) disagree with its type field", "consistent with (class, method)", "inconsistent");
+                    }
+                    if c == 0 {
+                        for (resp, rc) in [(Message::builder_success(&msg).build(), 2u8), (Message::builder_error(&msg).build(), 3u8)] {
+                            let want = wire::join_type(rc, m).to_be_bytes();
+                            if resp.len() != 20 || resp[0..2] != want || resp[8..20] != b[8..20] {
+                                viol!(acc, P, "response-builder-type", case, "builder_success / builder_error do not carry the request's method and transaction id under the RFC interleaving", crate::refimpl::crypto::hex(&want), fmt_bytes(&resp));
+                            }
+                        }
+                    }
+                }
             }
         }
         "tid" => {
